@@ -2,6 +2,7 @@
 from . import session
 from .c01 import histogram_keys, shrink_candidates   # noqa
 ID = "C05"
+SUBMODULES = ["c05cli"]     # end-to-end stream: the real `sk` binary under a pty, see c05cli.py
 HARNESS_PROP = "C05"
 N_QUICK, N_THOROUGH = 320, 12000
 PARALLEL = 16
